@@ -105,6 +105,12 @@ impl Callback for CsvDump {
     }
 
     fn on_complete(&mut self, block_height: u64) -> Result<()> {
+        // Write out all buffered rows before the files get their final names
+        self.block_writer.flush()?;
+        self.tx_writer.flush()?;
+        self.txin_writer.flush()?;
+        self.txout_writer.flush()?;
+
         // Keep in sync with c'tor
         for f in ["blocks", "transactions", "tx_in", "tx_out"] {
             // Rename temp files
